@@ -1659,8 +1659,9 @@ lydjson_subtree_r(struct lyd_json_ctx *lydctx, struct lyd_node *parent, struct l
         if (!name_len && !prefix_len && !parent) {
             LOGVAL(ctx, LYVE_SYNTAX_JSON,
                     "Invalid metadata format - \"@\" can be used only inside anydata, container or list entries.");
-            r = LY_EVALID;
-            LY_DPARSER_ERR_GOTO(r, rc = r, lydctx, cleanup);
+            /* nothing to attach the metadata to, cannot continue even when collecting several errors */
+            rc = LY_EVALID;
+            goto cleanup;
         } else if (!name_len && !prefix_len) {
             /* parent's metadata without a name - use the schema from the parent */
             attr_node = parent;
@@ -1680,8 +1681,9 @@ lydjson_subtree_r(struct lyd_json_ctx *lydctx, struct lyd_node *parent, struct l
             /* opaq node cannot have an empty string as the name. */
             if (name_len == 0) {
                 LOGVAL(lydctx->jsonctx->ctx, LYVE_SYNTAX_JSON, "JSON object member name cannot be a zero-length string.");
-                r = LY_EVALID;
-                LY_DPARSER_ERR_GOTO(r, rc = r, lydctx, cleanup);
+                /* a node without a name cannot be created, cannot continue even when collecting several errors */
+                rc = LY_EVALID;
+                goto cleanup;
             }
 
             /* move to the second item in the name/X pair and parse opaq */
